@@ -507,6 +507,19 @@ static void engine_op(int argc, char **argv)
     else { obs("bad-op"); return; }
     dump(); return;
   }
+  if(strcmp(op, "mprint") == 0 && argc == 4) {
+    /* tickit_term_goto + tickit_term_printn on the mock terminal: cells of several bytes for mdisp to walk.
+     * mtd_print does not return on a text the width counter rejects: such a line is skipped */
+    if(!is_mock || !heldt()) { obs("skip"); dump(); return; }
+    unsigned char *bytes; long n = hex_decode(argv[3], &bytes);
+    if(n < 0) { obs("bad-op"); return; }
+    TickitStringPos endpos;
+    if(tickit_utf8_ncount((char *)bytes, n, &endpos, NULL) != (size_t)n) { free(bytes); obs("skip"); dump(); return; }
+    tickit_term_goto(tt, A(1), A(2));
+    tickit_term_printn(tt, (char *)bytes, n);
+    free(bytes);
+    obs("ok"); dump(); return;
+  }
   if(strcmp(op, "mdisp") == 0 && argc == 5) {
     /* tickit_mockterm_get_display_text(buffer of exactly LEN bytes, LEN, line, col, width) */
     if(!is_mock || !heldt()) { obs("skip"); dump(); return; }
